@@ -118,6 +118,12 @@ func c14Gen(t *rapid.T) C14Case {
 		}
 		c.Names = append(c.Names, Str(nm))
 	}
+	if chance(t, "manynames", 5) {
+		// a long allow-list: counts around 32, 64, 128 and 256 names
+		for i, m := 0, pick(t, "nmany", []int{30, 33, 62, 64, 66, 100, 126, 130, 256}); i < m; i++ {
+			c.Names = append(c.Names, Str(fmt.Sprintf("w-%03d", (i*41)%m)))
+		}
+	}
 	allowed := normNames(c.Names)
 	maxLen := 0
 	for _, a := range allowed {
@@ -359,7 +365,7 @@ func c14Check(c C14Case, rec *Recorder) *Disc {
 
 func c14Prop() Prop[C14Case] {
 	return Prop[C14Case]{ID: "C14", Gen: c14Gen, Check: c14Check,
-		Rule: "generator: allowed-name sets of 1-40 names (prefixes/extensions of each other, mixed case in the configuration) x 0-4 ACRH field lines: 55% an increasing walk over the allowed names with <=1 OWS per side and <=14 empty elements, " +
+		Rule: "generator: allowed-name sets of 1-40 names (5%: 30-300 names) (prefixes/extensions of each other, mixed case in the configuration) x 0-4 ACRH field lines: 55% an increasing walk over the allowed names with <=1 OWS per side and <=14 empty elements, " +
 			"of which 45% get exactly one boundary mutation (17th / 16th empty element, 2 OWS on one side, 3-byte whitespace element, duplicate, swapped neighbours, element one byte over the longest name, upper case, one arbitrary byte 0x00-0xFF glued to an edge of an element, one letter replaced by Kelvin sign / dotted I / long s); 45% free-form elements " +
 			"(allowed names unsorted/repeated, prefix/extension/upper-case variants, runs of 0-20 empties, elements of length maxNameLen-1..+4 of name bytes or OWS, junk over {a b x - , SP HTAB NUL}) each with 0-3 OWS per side. " +
 			"Oracle: debug-off preflight approved (204 + ACAH echo) iff the reference list reader approves - for each field line served alone first, then for all lines together, twice, all through one wrapped handler (the reader has no memory); browser-shaped sublists (joined, one per line, comma-space) always approved. " +
